@@ -119,7 +119,7 @@ def check(scn, hist):
                     worst = max(worst, run_len)
                 else:
                     run_len = 0
-            if worst > (RETRY + 1) * awaited(text, is_q):
+            if worst > (RETRY + 1) * awaited(text, is_q) + 16:      # (+ a few settling reads once all is decided)
                 out.append(V(PROP, 'read_budget', fn, oid, '%d consecutive empty reads' % worst))
             clean = not prev_pending.get(port)
             req = rec['requests'][0] if rec['requests'] else None
